@@ -45,27 +45,11 @@ def check(r, ctx, store, fails, stats):
                 if t not in texts and s > worst:
                     fails.append(("missed-better", {"kind": "missed-better"}, dict(base, missed=(t, s))))
                     break
-    # the forward pass: every node's forward score is the best, over its connectable predecessors, of the predecessor's forward
-    # score + the edge score + the node's own score (the engine's own scores, as its hooks report them)
-    if d["lattice"] is not None:
-        fwd = {"bos": 0}
-        for pos in d["lattice"]:
-            for nd in pos:
-                fwd[nd["id"]] = nd["fwd"]
-        prevs = {}
-        for p_, n_, e_, ns_ in d["edges"]:
-            prevs.setdefault(n_, []).append((p_, e_, ns_))
-        for nid, f_ in fwd.items():
-            if nid == "bos":
-                continue
-            stats["forward_checks"] = stats.get("forward_checks", 0) + 1
-            cands_ = [fwd[p_] + e_ + ns_ for p_, e_, ns_ in prevs.get(nid, []) if e_ >= 0 and ns_ >= 0 and fwd.get(p_, -1) >= 0]
-            want_ = max(cands_) if cands_ else None
-            if (want_ is None and f_ >= 0) or (want_ is not None and f_ != want_):
-                fails.append(("forward-score", {"kind": "forward-score"},
-                              dict(r.case.describe(), context=ctx, node=nid, forward_score=f_, best_over_predecessors=want_,
-                                   predecessors=[(p_, fwd.get(p_), e_, ns_) for p_, e_, ns_ in prevs.get(nid, [])][:8])))
-                break
+    # the forward pass, on the engine's own scores as its hooks report them
+    stats["forward_checks"] = stats.get("forward_checks", 0) + 1
+    bad_ = K.forward_inconsistency(d)
+    if bad_ is not None:
+        fails.append(("forward-score", {"kind": "forward-score"}, dict(r.case.describe(), context=ctx, **bad_)))
     if d["again"] != d["cands"]:
         fails.append(("not-deterministic", {"kind": "not-deterministic"}, dict(r.case.describe(), context=ctx)))
 
